@@ -104,7 +104,13 @@ func (dc *ClientDnsConnection) Close() error {
 		}
 	}
 
-	return dc.Communicator.Close()
+	err := dc.Communicator.Close()
+
+	// Wake up readers and writers blocked on the queues: nothing will arrive or be acknowledged any more
+	dc.in.Close()
+	dc.out.Close()
+
+	return err
 }
 
 // Closed will return `true` if SafeStream.Close has been called at least once
